@@ -33,11 +33,17 @@ a post-image whose stripped path fully matches the filter, the multiset of
 [start, start+count-1] of its hunks with count > 0.  Observed: argv of the
 stand-in (`<files...> --file-lines <JSON>`).
 
-Violations are reduced (drop files, lower -p, default filter, fewer context
-lines, GNU style, drop / simplify lines -- each step re-run against the real
-binaries and kept only if the same kind of violation remains) and reported under
-the identity of the reduced witness; the cases that reduce to it are counted in
-the replay file.  A new defect therefore shows up as a new witness.
+Tree pairs of a tier = (1) every entry of a per-file catalogue (base lists x one or two edits, see
+`file_changes`) on x.rs next to an unchanged src/m.txt, and a stated part of it on a/b/c.rs and
+src/m.txt; (2) deletion / creation of each of the three files and renames x.rs->y.rs,
+a/b/c.rs->a/b/d.rs, src/m.txt->x.rs with and without an edit; (3) all products of a 6-entry
+(thorough: 9-entry) per-file catalogue `SMALL` over the pairs and the triple of names.  The thorough
+space contains the quick space.
+
+Violations are reduced (drop files, lower -p, earlier filter, GNU style, earlier file name, simpler
+lines, fewer lines, fewer context lines -- each step re-run against the real binaries and kept only
+if the same kind of violation remains) and reported under the identity of the reduced witness; the
+runs that reduce to it are counted in the replay file.  A new defect shows up as a new witness.
 """
 
 import json
@@ -872,6 +878,13 @@ def reduce_case(item):
     return found
 
 
+def recheck(case):
+    try:
+        return evaluate(case)["what"]
+    except Machinery as e:
+        return f"machinery: {e}"
+
+
 def witness_key(c):
     return (size_key(c), c["p"], [f[0] for f in FILTERS].index(c["f"]), c["x"])
 
@@ -1144,9 +1157,7 @@ def main():
                 run.sample(r["sample"], limit=4)
             fails += r["fail"]
         run.count("violating_runs", len(fails))
-        # every violating run is reduced; the witness is run again (twice in total) before it is
-        # reported, and a violating run that does not reproduce is its own witness and is reported
-        # as nondeterministic by that second run
+        # every violating run is reduced to a witness; the witness is run again before it is reported
         global _MEMO, _WIT
         for dc, r in zip(dcs, results):
             for p, fname, x, what in r["all"]:
@@ -1162,6 +1173,13 @@ def main():
             if k not in best or measure(c) < measure(best[k]):
                 best[k] = c
         run.count("violating_diffs", len(best))
+        # determinism: the representative of every violating diff is run a second time
+        keys = sorted(best, key=lambda k: (measure(best[k]), k[1]))
+        second = pmap(recheck, [best[k] for k in keys], chunk=8)
+        for k, w2 in zip(keys, second):
+            if w2 != k[1]:
+                c = best.pop(k)
+                run.violation(case_id(c), "nondeterministic", {"case": c, "first": k[1], "second": w2})
         # cheap pre-reduction through cases of the QUICK space only (their outcomes are known in
         # both tiers, so a run of the quick space gets the same witness in both tiers)
         free = {}
@@ -1188,6 +1206,8 @@ def main():
         wit_of_start = {(case_id(c), w): wit for (c, w), wit in zip(stable, witnesses)}
         groups = {}
         for case, what in fails:
+            if (diffcase_id(canon(case)), what) not in free:
+                continue  # reported as nondeterministic
             st = free[(diffcase_id(canon(case)), what)]
             w = wit_of_start[(case_id(st), what)]
             g = groups.setdefault((case_id(w), what), {"case": w, "what": what, "from": []})
@@ -1223,7 +1243,8 @@ def main():
             "styles": STYLES,
             "context": [0, 1, 2, 3],
             "filters": {f[0]: f[1] for f in FILTERS},
-            "p": "0..min(3, deepest post-image path)",
+            "p": "0..min(3, deepest post-image path); class overstrip when above the depth of some file",
+            "tree_pairs": "see module docstring: (1) catalogue on one file, (2) file-level events, (3) products of SMALL",
             "standin_exit": "0; 1 with the default filter",
         }
         run.finish()
